@@ -1,6 +1,7 @@
 package main
 
 import (
+	"runtime/debug"
 	"crypto/sha256"
 	"encoding/hex"
 	"encoding/json"
@@ -232,12 +233,33 @@ func unhex(s string) []byte {
 	return b
 }
 
+// where the last recovered panic came from: the innermost frames inside the repository
+var lastPanicWhere string
+
+func panicSite(stack string) string {
+	var fr []string
+	for _, l := range strings.Split(stack, "\n") {
+		l = strings.TrimSpace(l)
+		if strings.HasPrefix(l, "/repo/") {
+			if i := strings.Index(l, " +0x"); i > 0 {
+				l = l[:i]
+			}
+			fr = append(fr, strings.TrimPrefix(l, "/repo/"))
+			if len(fr) == 3 {
+				break
+			}
+		}
+	}
+	return strings.Join(fr, " < ")
+}
+
 // run f, reporting whether it panicked
 func catchPanic(f func()) (panicked bool, msg string) {
 	defer func() {
 		if r := recover(); r != nil {
 			panicked = true
 			msg = fmt.Sprint(r)
+			lastPanicWhere = panicSite(string(debug.Stack()))
 		}
 	}()
 	f()
